@@ -31,15 +31,15 @@ def stepSerde (cx : Ctx) (rc : Recv) (op : String) (args : List String) (rawLine
   let t := cx.td
   let data := cx.prev.data
   let isView := match rc with | .vmut _ | .vsh _ => true | _ => false
-  let viewCells : Res (List Nat) := do
-    let rows ← rc.rows m
-    let ws ← rows.collect (rows.v.len + 2)
-    pure (ws.map (readWin data)).flatten
+  -- the owned copy of a view receiver (`TooDee::from(view)`), what a round trip must give back
+  let viewOwned : Res (TD Nat) :=
+    match rc with
+    | .vmut v | .vsh v => v.toOwned m cx.capLimit data
+    | _ => pure t
   let doc : Res JVal :=
-    if isView then do
-      let cells ← viewCells
-      pure (serializeView encElem rc.numCols rc.numRows cells)
-    else pure (serializeOwned encElem t)
+    match rc with
+    | .vmut v | .vsh v => v.serialize m encElem data
+    | _ => pure (serializeOwned encElem t)
   let isExt := match rc with | .ext _ => true | _ => false
   if isExt then (if op ∈ ["ser", "roundtrip"] then some cx.badOp else none) else
   if isView ∧ cx.elem ≠ .u32 ∧ op ∈ ["ser", "roundtrip"] then some { cx.same with status := "unsupported" } else
@@ -56,10 +56,10 @@ def stepSerde (cx : Ctx) (rc : Recv) (op : String) (args : List String) (rawLine
       let d := if tr = "value" then viaValue d else d
       match deserialize decElem d with
       | .ok t' =>
-        let expect : Res (TD Nat) := if isView then do let c ← viewCells; pure ⟨c, rc.numRows, rc.numCols⟩ else pure t
+        let expect : Res (TD Nat) := viewOwned
         let eq := match expect with | .ok e => decide (e = t') | .error _ => false
         pure { cx.same with toks := [toString t'.numCols, toString t'.numRows, fmtList t'.data, if eq then "eq=1" else "eq=0"],
-                            drops := cx.dr (t'.data ++ (if isView then (viewCells.toOption.getD []) else [])) }
+                            drops := cx.dr (t'.data ++ (if isView then ((viewOwned.map (·.data)).toOption.getD []) else [])) }
       | .err => pure { cx.same with toks := ["err"] }
       | .panic => pure (cx.fail .panic)
   | "de", tr :: _ =>
